@@ -314,7 +314,7 @@ def _cfg_chain(tier, seed):
     ]
     if tier == "quick":
         return q
-    return q + [{"nsteps": 4, "shape": (2, 2), "weighted": True, "rounds": 2}, {"nsteps": 4, "shape": (3,), "ncomp": 3}, {"nsteps": 2, "shape": (1, 3), "ncomp": 2, "weighted": True, "rounds": 2}]
+    return q + [{"nsteps": 4, "shape": (2, 2), "weighted": True, "rounds": 2}, {"nsteps": 4, "shape": (3,), "ncomp": 3}, {"nsteps": 2, "shape": (1, 3), "ncomp": 2, "weighted": True, "rounds": 2}, {"nsteps": 4, "shape": (2, 3), "ncomp": 3, "weighted": True, "rounds": 2}, {"nsteps": 3, "shape": (4,), "ncomp": 2, "rounds": 2}]
 
 
 def _cfg_mixed(tier, seed):
